@@ -145,5 +145,5 @@ HelperMustErr(fn, c) ==
   \/ fn \in {"KeySliceToArray", "NonceSliceToArray"} /\ c # "valid"
   \/ fn = "PublicKeyToCurve25519" /\ c # "valid"
   \/ fn \in {"ShareableContactCheckFormat", "ShareableContactGetPubKey"} /\ c \in {"empty", "short", "over"}
-  \/ fn = "GroupIsValid" /\ c # "valid"
+  \/ fn = "GroupIsValid" /\ c = "garb"
 =============================================================================
